@@ -36,6 +36,7 @@ MRequired(a) ==
   CASE a.cls = "PositiveReal" -> {"positive", "same"}
     [] a.cls = "OpenInterval" -> {"interval", "same"}
     [] a.cls = "Trace1PSD" -> {"hermitian", "trace1", "gram", "shape", "same"} \cup (IF a.cplx THEN {} ELSE {"real"})
+    [] a.cls = "ExpTrace1PSD" -> {"hermitian", "trace1", "gram", "shape", "same"} \cup (IF a.cplx THEN {} ELSE {"real"})
     [] a.cls = "SymmetricMatrix" -> {"hermitian", "shape", "same"} \cup (IF a.cplx THEN {} ELSE {"real"}) \cup (IF ModI(a.opt, 2) = 1 THEN {"trace0"} ELSE {}) \cup (IF a.opt >= 2 THEN {"norm1"} ELSE {})
     [] a.cls = "Ball" -> {"ball", "len", "same"} \cup (IF a.cplx THEN {} ELSE {"realv"})
     [] a.cls = "Sphere" -> {"unit", "len", "same"} \cup (IF a.cplx THEN {} ELSE {"realv"})
